@@ -36,3 +36,10 @@ claim("C19", "proof", "unordered-collection taint analysis (sources: sets, free_
       "its paired form, which is checked structurally. Obligations = sources + sinks + pairing clauses; all discharged.",
       "Trusted: SymPy's printer orders terms canonically; dict order is insertion order; int-element sets iterate independently of the seed (reported as information here, decided under C07/C16).",
       "DESIGN.md 4.5 ORD, 5/C19")
+
+claim("C07", "other", "def-use provenance of include paths, unordered-flow sinks on the mode map, effect analysis of the expansion block, finite-model evaluation of the dominating call guards",
+      "Decides the structural clauses: (1) include file names flow join(self._cwd, STR text) -> FileStream, cwd from dirname(file), getcwd only as fallback, no chdir; (2) included modes reach zip only through sorted(); "
+      "(3) every mutation in the expansion targets fresh objects and nothing shared with the stored include enters the program (covers repeated calls); (4) on all 256 models of (mode counts, has-arguments, "
+      "parameter set, keyword set) the expansion is reachable only when arity and keyword set match; (5) merge/dedupe/lookup of the include table.",
+      "Not decided: numeric equality of bound parameter values (C04's runtime part). Trusted: library model, FileStream opens the path it is given.",
+      "DESIGN.md 5/C07")
